@@ -866,3 +866,72 @@ M("c13-bind-overwrites-existing", "C13", ["C13.bind"],
 """, ""))
 M("c13-send-bound-to-other-name", "C13", ["C13.send"],
   E(SM, "            event_instance = BoundEvent(id=event, name=event, _sm=self)", "            event_instance = BoundEvent(id=event.strip().lower(), name=event, _sm=self)"))
+
+# ----------------------------------------------------------------------------------------- C09
+M("c09-visit-follows-source", "C09", ["C09.visit"],
+  E(GR, "        visit.extend(t.target for t in state.transitions)",
+    "        visit.extend(t.target for t in state.transitions)\n        visit.extend(t.source for t in start.transitions if t.target is state)"),
+  E(GR, "def visit_connected_states(state):\n    visit = deque()", "def visit_connected_states(state):\n    start = state\n    visit = deque()"),
+  note="variant of 'reachability that ignores direction'")
+M("c09-final-check-ignores-self-loops", "C09", ["C09.pred"],
+  E(FAC, "            state for state in cls.final_states if state.transitions",
+    "            state for state in cls.final_states if [t for t in state.transitions if t.target is not state]"),
+  note="properties.jsonl: verified to pass all 348 tests")
+M("c09-skip-disconnected-check", "C09", ["C09.calls"],
+  E(FAC, "        cls._check_disconnected_state()\n", ""))
+M("c09-trap-raises-without-strict", "C09", ["C09.pred"],
+  E(FAC, """            if cls._strict_states:
+                raise InvalidDefinition(message)
+            else:
+                warnings.warn(message, UserWarning, stacklevel=4)""", """            raise InvalidDefinition(message)"""))
+M("c09-reach-final-warns-under-strict", "C09", ["C09.pred"],
+  E(FAC, """            if cls._strict_states:
+                raise InvalidDefinition(message)
+            else:
+                warnings.warn(message, UserWarning, stacklevel=1)""", """            warnings.warn(message, UserWarning, stacklevel=1)"""))
+M("c09-any-includes-final", ["C09", "C15"], ["C09.any", "C15.any"],
+  E(ST, """            if state.final:
+                continue
+            new_transition""", """            new_transition"""))
+M("c09-initial-at-least-one", "C09", ["C09.pred"],
+  E(FAC, "        if len(initials) != 1:", "        if len(initials) < 1:"))
+M("c09-trap-includes-final", "C09", ["C09.pred"],
+  E(FAC, "        trap_states = [s for s in cls.states if not s.final and not s.transitions]", "        trap_states = [s for s in cls.states if not s.transitions]"))
+M("c09-internal-check-after-registration", "C09", ["C09.internal"],
+  E(TR, """        if internal and source is not target:
+            raise InvalidDefinition("Internal transitions should be self-transitions.")
+
+""", ""),
+  E(TR, """            .add(unless, priority=CallbackPriority.INLINE, expected_value=False)
+        )
+""", """            .add(unless, priority=CallbackPriority.INLINE, expected_value=False)
+        )
+        if internal and source is not target:
+            raise InvalidDefinition("Internal transitions should be self-transitions.")
+"""), note="harmless by itself but the rule states 'before any registration'; kept as a strictness probe")
+M("c09-internal-not-checked", "C09", ["C09.internal"],
+  E(TR, """        if internal and source is not target:
+            raise InvalidDefinition("Internal transitions should be self-transitions.")
+
+""", ""))
+M("c09-abstract-if-no-events", "C09", ["C09.calls"],
+  E(FAC, "        cls._abstract = not has_states and not has_events", "        cls._abstract = not has_states or not has_events"))
+M("c09-visit-yields-before-visited-test", "C09", ["C09.visit"],
+  E(GR, """        if state in already_visited:
+            continue
+        already_visited.add(state)
+        yield state""", """        yield state
+        if state in already_visited:
+            continue
+        already_visited.add(state)"""))
+M("c09-visit-only-first-target", "C09", ["C09.visit"],
+  E(GR, "        visit.extend(t.target for t in state.transitions)", "        visit.extend(t.target for t in state.transitions[:1])"))
+B("b-reach-final-predicate-without-final-test", ["C09"],
+  E(FAC, "            if not state.final and not any(s.final for s in visit_connected_states(state))",
+    "            if not any(s.final for s in visit_connected_states(state))"), note="a final state reaches itself, so dropping `not state.final` selects the same states")
+
+B("b-trap-predicate-rewritten", ["C09"],
+  E(FAC, "        trap_states = [s for s in cls.states if not s.final and not s.transitions]",
+    "        trap_states = [s for s in cls.states if not (s.final or len(s.transitions) > 0)]"))
+B("b-initial-count-rewritten", ["C09"],
+  E(FAC, "        if len(initials) != 1:", "        if not len(initials) == 1:"))
